@@ -62,6 +62,21 @@ pub fn run_case(ctx: &mut Ctx, c: &Case) {
             s
         }
     };
+    // a fifth of the cases: the transport reports EINTR (`Interrupted`) before every third
+    // segment - a signal arriving while the client waits; it says nothing about the stream and
+    // must be invisible in the result
+    let mut steps = steps;
+    if (built.wire.len() + steps.len()) % 5 == 0 && steps.len() >= 2 {
+        let mut with_eintr = Vec::with_capacity(steps.len() * 4 / 3 + 1);
+        for (i, st) in steps.into_iter().enumerate() {
+            if i % 3 == 1 {
+                with_eintr.push(Step::Err(std::io::ErrorKind::Interrupted));
+            }
+            with_eintr.push(st);
+        }
+        steps = with_eintr;
+        ctx.count("cases_with_interrupted_reads", 1);
+    }
     let nsteps = steps.len();
     let world = World::single(steps);
     let resp = attohttpc::get("http://origin.test/c01").send();
